@@ -72,6 +72,108 @@ def replay_exec(ctx, tag, records, engines, pair=None, claim=None, timeout_ms=20
     return rep
 
 
+# ------------------------------------------------------------------------------------------------
+# Direction A: executions recorded from the real interpreter (hook H1), validated by TLC against
+# Machine.tla (TraceInterp.tla): every register of every step, helper calls, outcome, memory.
+# ------------------------------------------------------------------------------------------------
+def validate_trace(ctx, tag, path, devs):
+    r = run_tlc(tag, "TraceInterp", {"NB": 8, "LB": 8, "TraceDevs": set(devs)}, spec="TraceSpec",
+                invariants=["TraceInv"], postcondition="TraceAccepted", workers=1, timeout=1800,
+                env={"TRACE": path}, expect_violation=True)
+    import re
+    m = re.search(r'<<"TRACE-ACCEPTED", (\d+), "deviation-steps", (\d+)>>', r.out)
+    if m:
+        return r, ("accepted", int(m.group(1)), int(m.group(2)))
+    m = re.search(r'<<"TRACE-REJECTED", (\d+), (\d+)>>', r.out)
+    if m:
+        return r, ("rejected", int(m.group(1)), int(m.group(2)))
+    if "Invariant TraceInv is violated" in r.out:
+        return r, ("invariant", 0, 0)
+    raise ToolError(f"trace validation {tag} failed:\n" + r.out[-2500:])
+
+
+def trace_interp(ctx, tag, n, mode="mixed", chunks=8, cases_file=None):
+    """Record n random accepted programs on the interpreter and validate every step with TLC."""
+    from concurrent.futures import ThreadPoolExecutor
+    prefix = os.path.join(ctx.workdir, f"{tag}.trace")
+    args = ["record-interp", "--seed", str(ctx.seed), "--n", str(n), "--mode", mode, "--out-prefix", prefix,
+            "--chunks", str(chunks)]
+    if cases_file:
+        args += ["--cases", cases_file]
+    rv(args, timeout=1800)
+    summ = json.load(open(prefix + ".summary.json"))
+    ctx.extra.setdefault("recorded", {})[tag] = {k: summ[k] for k in ("generated", "accepted", "rejected_by_verifier", "events", "outcomes")}
+    for c in summ["crashes"]:
+        ctx.violation(f"interpreter crashed on a verifier-accepted program ({c['how']})",
+                      {"kind": "trace", "case": c["case"], "how": c["how"]})
+    # deviations of recorded interpreter findings are enabled whatever the property (otherwise a
+    # trace stops being checked at the first deviating step); they are REPORTED only by the
+    # properties the finding is recorded against
+    devs = sorted({f["key"] for f in core.load_known()["findings"] if "interpreter" in f["where"]})
+    index = summ["index"]
+
+    def one(k):
+        path = f"{prefix}.{k}.ndjson"
+        lines = open(path).read().splitlines()
+        runs = [e for e in index if e["chunk"] == k]
+        out = {"events": 0, "runs_ok": 0, "dev": 0, "bad": [], "states": 0, "gen": 0}
+        attempt = 0
+        while lines and attempt < 6:
+            attempt += 1
+            cur = f"{prefix}.{k}.try{attempt}.ndjson"
+            open(cur, "w").write("\n".join(lines) + "\n")
+            r, (verdict, a, b) = validate_trace(ctx, f"{ctx.prop}-{tag}-{k}-{attempt}", cur, devs)
+            out["states"] += r.distinct
+            out["gen"] += r.generated
+            if verdict == "accepted":
+                out["events"] += a
+                out["dev"] += b
+                out["runs_ok"] += sum(1 for ln in lines if ln.startswith('{"case"') or '"e":"start"' in ln[:40] or '"e":"start"' in ln[-80:])
+                break
+            # find the run that contains the first unmatched event, report it, cut it out, go on
+            pos = a if verdict == "rejected" else 1
+            starts = [i for i, ln in enumerate(lines) if '"e":"start"' in ln]
+            si = max([i for i in starts if i < pos] or [0])
+            nxt = min([i for i in starts if i > si] or [len(lines)])
+            ev = json.loads(lines[min(pos - 1, len(lines) - 1)])
+            case = json.loads(lines[si])["case"]
+            out["bad"].append({"case": case, "event_index_in_run": pos - si, "event": ev, "verdict": verdict,
+                               "tlc": r.out[-1500:] if verdict == "invariant" else ""})
+            out["events"] += si
+            lines = lines[:si] + lines[nxt:]
+        return out
+
+    with ThreadPoolExecutor(max_workers=min(chunks, 8)) as ex:
+        res = list(ex.map(one, range(chunks)))
+    total_events = sum(r["events"] for r in res)
+    ctx.states += sum(r["states"] for r in res)
+    ctx.transitions += sum(r["gen"] for r in res)
+    ctx.tlc_runs.append({"model": f"TraceInterp[{tag}] x{chunks}", "events_validated": total_events,
+                         "distinct_states": sum(r["states"] for r in res)})
+    ctx.traces += summ["accepted"] - sum(len(r["bad"]) for r in res)
+    ctx.evaluations += summ["accepted"]
+    ctx.extra.setdefault("trace_events_validated", 0)
+    ctx.extra["trace_events_validated"] += total_events
+    ndev = sum(r["dev"] for r in res)
+    if ndev and "jmp_imm_zext" in core.known_devs(ctx.prop):
+        ctx.known_hits["jmp_imm_zext"] = ctx.known_hits.get("jmp_imm_zext", 0) + ndev
+    elif ndev:
+        ctx.notes.append(f"{ndev} step(s) explained by the deviation of known finding jmp_imm_zext (recorded against C01/C03/C04)")
+    for r in res:
+        for b in r["bad"]:
+            ev = b["event"]
+            what = {"step": "the interpreter's state before this instruction is not the state the specification reaches",
+                    "end": "the outcome / final memory differs from the specification's",
+                    "helper": "unexpected helper call", "start": "initial context differs"}.get(ev.get("e"), "unexplained event")
+            ctx.violation(f"recorded interpreter run is not a behaviour of Machine.tla at event {b['event_index_in_run']} ({ev.get('e')}, pc={ev.get('pc')}): {what}",
+                          {"kind": "trace", "case": b["case"], "event": ev, "event_index_in_run": b["event_index_in_run"]})
+    if summ["accepted"]:
+        first = json.loads(open(f"{prefix}.0.ndjson").readline())
+        ctx.sample({"recorded_run_start_event": {"case_id": first["case"]["id"], "vm": first["case"]["vm"],
+                                                 "program_slots": len(first["case"]["prog"])}})
+    return summ
+
+
 def small_width_models(ctx, which=("word", "alu")):
     """Exhaustive agreement of the limb arithmetic / ALU semantics with mathematics at 8 bits."""
     for name, module, cfgs in (("word", "MC_WordSmall", ((2, 4),) if ctx.quick else ((2, 4), (4, 2), (2, 3))),
@@ -96,6 +198,8 @@ def run_C01(ctx):
     recs = exec_cases(ctx, "isa", ["alu", "jmp", "far", "farcall", "mem"], rate, timeout=1500)
     ctx.nontrivial = len({json.dumps(r["case"]["id"]) for r in recs})
     replay_exec(ctx, "isa", recs, ["interp"])
+    # direction A: random terminating programs, every step validated
+    trace_interp(ctx, "structured", 150 if ctx.quick else 4000, mode="structured")
 
 
 def run_C03(ctx):
@@ -108,8 +212,10 @@ def run_C03(ctx):
 
 def run_C04(ctx):
     rate = 24 if ctx.quick else 1
-    recs = exec_cases(ctx, "isa", ["alu", "jmp", "far", "farcall", "mem"], rate, timeout=1500)
+    recs = exec_cases(ctx, "isa", ["alu", "jmp", "far", "farcall", "mem", "calls"], rate, timeout=1500)
     ctx.nontrivial = len({json.dumps(r["case"]["id"]) for r in recs})
+    ctx.extra["programs_with_local_calls_must_be_refused"] = sum(
+        1 for r in recs if any(sg[1][0] == 0x85 and sg[1][2] == 1 for sg in r["case"]["prog"]))
     rep = replay_exec(ctx, "isa", recs, ["cl"], pair="interp")
     ctx.disagreements_checked = rep.get("disagreements_checked", 0)
 
@@ -247,7 +353,8 @@ def run_C05(ctx):
 
 
 def extra_C05(ctx):
-    pass
+    # direction A: arbitrary accepted programs under an instruction budget, every step validated
+    trace_interp(ctx, "arbitrary", 400 if ctx.quick else 20000, mode="arbitrary")
 
 
 CHECKS = {
@@ -285,6 +392,15 @@ def replay(prop, path):
         rep = json.load(open(os.path.join(WORK, "replay_one.report.json")))
         print(json.dumps(rep["failures"] or rep["samples"], indent=1)[:3000])
         return 1 if rep["fail"] else 0
+    if kind == "trace":
+        ctx = core.Ctx(prop, "quick", 1)
+        tmp = os.path.join(ctx.workdir, "replay_case.ndjson")
+        open(tmp, "w").write(json.dumps(rec["case"]) + "\n")
+        trace_interp(ctx, "replay", 1, chunks=1, cases_file=tmp)
+        for v in ctx.violations:
+            print("DISAGREES:", v["reason"])
+        print("agrees with the specification" if not ctx.violations else "")
+        return 1 if ctx.violations else 0
     if kind == "exec":
         p = rv(["exec-one", "--case", path], check=False)
         print(p.stdout)
